@@ -5,8 +5,9 @@
    (trigger/mod.rs HandlerInterface::notify, WaiterInterface::{try,timed,blocking}_wait,
    empty_buffer): a counter `trig` of pending tokens with capacity `tcap` (None = unbounded).
 
-     notify(i):  event.activate(i)            -- bit_set: max_event_id < i => Err(EventIdOutOfBounds);
-                                                 set_bit: cur := load word (Relaxed);
+     notify(i):  event.activate(i)            -- max_event_id < i => Err(EventIdOutOfBounds);
+                                                 data_ptr.as_ptr(): load of the relocatable pointer's distance (Relaxed)
+                                                 bit_set set_bit: cur := load word (Relaxed);
                                                  loop { if cur & mask != 0 return; CAS word cur -> cur|mask (Relaxed/Relaxed); Err(v) => cur := v }
                                                  counting: fetch_add(1, Relaxed) on counter i
                  CAS state Idle -> Pending (SeqCst/SeqCst):  Err(Notified) => return Ok  (NO trigger)
@@ -17,8 +18,8 @@
      wait(mode): CAS state Notified -> Idle (SeqCst/SeqCst): Ok => drain
                  else wait_call() (try / timed / blocking wait on the trigger); store state := Idle (SeqCst); drain
                  drain: waiter.empty_buffer(); event.drain(callback):
-                      bit_set reset_all:  for every word w: v := swap(0, Relaxed); callback(8w+b) for every set bit b
-                      counting reset_all: for every id:     c := swap(0, Relaxed); if c != 0 callback(id, c)
+                      bit_set reset_all:  for every word w: data_ptr.as_ptr() (load); v := swap(0, Relaxed); callback(8w+b) for every set bit b
+                      counting reset_all: for every id:     data_ptr.as_ptr() (load); c := swap(0, Relaxed); if c != 0 callback(id, c)
    One step = one shared-memory access (one atomic operation on a word / counter / the
    notification state, or one operation of the trigger).  The listener's blocking wait is
    ENABLED only when trig > 0 (step = None otherwise: "would sleep"); a try_wait / timed_wait
@@ -37,6 +38,7 @@ Inductive eop := ONotify (i : N) | OWait (m : wmode).
 
 Inductive epc :=
 | PIdle
+| NAct (i : N)             (* data_ptr loaded; about to load the word (bit_set) / fetch_add the counter (counting) *)
 | NActCas (i cur : N)      (* bit_set set_bit: about to CAS the word from cur *)
 | NCasIP (i : N)           (* about to CAS the notification state Idle -> Pending *)
 | NTrig (i : N)            (* about to post the trigger *)
@@ -44,7 +46,8 @@ Inductive epc :=
 | LWait (m : wmode)        (* about to wait on the trigger *)
 | LStoreIdle               (* about to store Idle *)
 | LEmpty                   (* about to empty the trigger buffer *)
-| LDrain (w total : N).    (* about to swap word / counter w; total = events reported so far *)
+| LDrainPtr (w total : N)   (* about to load data_ptr for word / counter w; total = events reported so far *)
+| LDrain (w total : N).    (* about to swap word / counter w *)    (* about to swap word / counter w; total = events reported so far *)
 
 Record elst := {
   prog : list eop; at_pc : epc;
@@ -55,6 +58,7 @@ Record elst := {
 Record egst := {
   kind : ekind; cap : N;    (* cap = event_id_max + 1 *)
   tcap : option N;          (* capacity of the trigger buffer *)
+  pdist : N;                (* value of the RelocatablePointer distance (relocatable_pointer.rs as_ptr loads it atomically before every word access; constant) *)
   after_wait : N -> N;      (* trigger policy: tokens left by a successful wait on n > 0 tokens (model trigger: n - 1) *)
   after_empty : N -> N;     (* trigger policy: tokens left by empty_buffer on n tokens (model trigger: 0) *)
   words : N -> N;           (* bit_set: 8-bit words; counting: one counter per id *)
@@ -71,7 +75,7 @@ Record egst := {
 Definition undelivered (g : egst) (i : N) : Prop := covered g i < done_idx g i.
 Definition undelivered_b (g : egst) (i : N) : bool := N.ltb (covered g i) (done_idx g i).
 
-Definition B_WORD : N := 0.  Definition B_STATE : N := 1.  Definition B_TRIG : N := 2.
+Definition B_WORD : N := 0.  Definition B_STATE : N := 1.  Definition B_TRIG : N := 2.  Definition B_PTR : N := 3.
 Definition two64 : N := 18446744073709551616.
 
 Definition fupd (f : N -> N) (i v : N) : N -> N := fun j => if N.eqb j i then v else f j.
@@ -106,27 +110,27 @@ Definition set_li (l : elst) (p : list eop) (c : epc) (x : N) : elst :=
   {| prog := p; at_pc := c; ffull := ffull l; my_idx := x |}.
 
 Definition upd_real (g : egst) (ws : N -> N) (s : nst) (tr : N) : egst :=
-  {| kind := kind g; cap := cap g; tcap := tcap g; after_wait := after_wait g; after_empty := after_empty g; words := ws; st := s; trig := tr;
+  {| kind := kind g; cap := cap g; tcap := tcap g; pdist := pdist g; after_wait := after_wait g; after_empty := after_empty g; words := ws; st := s; trig := tr;
      notified_total := notified_total g; delivered_total := delivered_total g; covered := covered g;
      done_idx := done_idx g; lost := lost g |}.
 
 (* the activation of id i takes effect (word already updated to ws) *)
 Definition activated (g : egst) (ws : N -> N) (i : N) (wrapped : bool) : egst :=
-  {| kind := kind g; cap := cap g; tcap := tcap g; after_wait := after_wait g; after_empty := after_empty g; words := ws; st := st g; trig := trig g;
+  {| kind := kind g; cap := cap g; tcap := tcap g; pdist := pdist g; after_wait := after_wait g; after_empty := after_empty g; words := ws; st := st g; trig := trig g;
      notified_total := fupd (notified_total g) i (notified_total g i + 1);
      delivered_total := delivered_total g; covered := covered g; done_idx := done_idx g;
      lost := if wrapped then fupd (lost g) i (lost g i + 1) else lost g |}.
 
 (* notify(i) of a thread whose activation index is x returns Ok *)
 Definition returned (g : egst) (s : nst) (i x : N) : egst :=
-  {| kind := kind g; cap := cap g; tcap := tcap g; after_wait := after_wait g; after_empty := after_empty g; words := words g; st := s; trig := trig g;
+  {| kind := kind g; cap := cap g; tcap := tcap g; pdist := pdist g; after_wait := after_wait g; after_empty := after_empty g; words := words g; st := s; trig := trig g;
      notified_total := notified_total g; delivered_total := delivered_total g; covered := covered g;
      done_idx := fupd (done_idx g) i (N.max (done_idx g i) x); lost := lost g |}.
 
 (* Drain step of word w *)
 Definition drained (g : egst) (w : N) : egst :=
   let k := kind g in
-  {| kind := k; cap := cap g; tcap := tcap g; after_wait := after_wait g; after_empty := after_empty g; words := fupd (words g) w 0; st := st g; trig := trig g;
+  {| kind := k; cap := cap g; tcap := tcap g; pdist := pdist g; after_wait := after_wait g; after_empty := after_empty g; words := fupd (words g) w 0; st := st g; trig := trig g;
      notified_total := notified_total g;
      delivered_total := (fun j => if N.eqb (widx k j) w then delivered_total g j + pend k (words g) j else delivered_total g j);
      covered := (fun j => if N.eqb (widx k j) w then notified_total g j else covered g j);
@@ -147,19 +151,7 @@ Definition step (t : nat) (g : egst) (l : elst) : option (egst * elst * list ev)
       | O => Some (g, set_l l p PIdle, [])                      (* the listener thread does not notify *)
       | S _ =>
         if N.leb (cap g) i then Some (g, set_l l p PIdle, [ERet RET_OOB])
-        else match kind g with
-        | EBitSet =>
-          let cur := words g (i / 8) in
-          let e := EAcc 10 B_WORD (i / 8) KLoad Relaxed Relaxed cur 0 true in
-          if N.testbit cur (bitno i)
-          then Some (activated g (words g) i false, set_li l p (NCasIP i) (notified_total g i + 1), [e])
-          else Some (g, set_l l p (NActCas i cur), [e])
-        | ECounting =>
-          let c := words g i in
-          let c' := (c + 1) mod two64 in
-          Some (activated g (fupd (words g) i c') i (N.eqb c' 0), set_li l p (NCasIP i) (notified_total g i + 1),
-                [EAcc 20 B_WORD i KFetchAdd Relaxed Relaxed c c' true])
-        end
+        else Some (g, set_l l p (NAct i), [EAcc 5 B_PTR 0 KLoad Relaxed Relaxed (pdist g) 0 true])
       end
     | OWait m :: p =>
       match t with
@@ -171,6 +163,20 @@ Definition step (t : nat) (g : egst) (l : elst) : option (egst * elst * list ev)
         end
       | S _ => Some (g, set_l l p PIdle, [])                    (* notifier threads do not wait *)
       end
+    end
+  | NAct i =>
+    match kind g with
+    | EBitSet =>
+      let cur := words g (i / 8) in
+      let e := EAcc 10 B_WORD (i / 8) KLoad Relaxed Relaxed cur 0 true in
+      if N.testbit cur (bitno i)
+      then Some (activated g (words g) i false, set_li l (prog l) (NCasIP i) (notified_total g i + 1), [e])
+      else Some (g, set_l l (prog l) (NActCas i cur), [e])
+    | ECounting =>
+      let c := words g i in
+      let c' := (c + 1) mod two64 in
+      Some (activated g (fupd (words g) i c') i (N.eqb c' 0), set_li l (prog l) (NCasIP i) (notified_total g i + 1),
+            [EAcc 20 B_WORD i KFetchAdd Relaxed Relaxed c c' true])
     end
   | NActCas i cur =>
     let w := i / 8 in
@@ -220,15 +226,17 @@ Definition step (t : nat) (g : egst) (l : elst) : option (egst * elst * list ev)
     Some (upd_real g (words g) Idle (trig g), set_l l (prog l) LEmpty,
           [EAcc 64 B_STATE 0 KStore SeqCst SeqCst 0 0 true])
   | LEmpty =>
-    Some (upd_real g (words g) (st g) (after_empty g (trig g)), set_l l (prog l) (LDrain 0 0),
+    Some (upd_real g (words g) (st g) (after_empty g (trig g)), set_l l (prog l) (LDrainPtr 0 0),
           [EAcc 65 B_TRIG 0 KSwap SeqCst SeqCst (trig g) (after_empty g (trig g)) true])
+  | LDrainPtr w total =>
+    Some (g, set_l l (prog l) (LDrain w total), [EAcc 69 B_PTR 0 KLoad Relaxed Relaxed (pdist g) 0 true])
   | LDrain w total =>
     let v := words g w in
     let total' := total + rep_total (kind g) w v in
-    let e := EAcc 70 B_WORD w KSwap Relaxed Relaxed v 0 true :: map (fun r => ERet (rep_code r)) (reports (kind g) w v) in
+    let e := EAcc (match kind g with EBitSet => 70 | ECounting => 71 end) B_WORD w KSwap Relaxed Relaxed v 0 true :: map (fun r => ERet (rep_code r)) (reports (kind g) w v) in
     if N.leb (nwords (kind g) (cap g)) (w + 1)
     then Some (drained g w, set_l l (prog l) PIdle, e ++ [ERet (2 * total')])
-    else Some (drained g w, set_l l (prog l) (LDrain (w + 1) total'), e)
+    else Some (drained g w, set_l l (prog l) (LDrainPtr (w + 1) total'), e)
   end.
 
 Definition zero : N -> N := fun _ => 0.
@@ -240,13 +248,13 @@ Definition pol_model : tpolicy := {| pol_wait := fun n => n - 1; pol_empty := fu
 Definition pol_take_all : tpolicy := {| pol_wait := fun _ => 0; pol_empty := fun _ => 0 |}.
 Definition pol_one_each : tpolicy := {| pol_wait := fun n => n - 1; pol_empty := fun n => n - 1 |}.
 
-Definition g_init (k : ekind) (c : N) (tc : option N) (po : tpolicy) : egst :=
-  {| kind := k; cap := c; tcap := tc; after_wait := pol_wait po; after_empty := pol_empty po; words := zero; st := Idle; trig := 0;
+Definition g_init (k : ekind) (c : N) (tc : option N) (po : tpolicy) (pd : N) : egst :=
+  {| kind := k; cap := c; tcap := tc; pdist := pd; after_wait := pol_wait po; after_empty := pol_empty po; words := zero; st := Idle; trig := 0;
      notified_total := zero; delivered_total := zero; covered := zero; done_idx := zero; lost := zero |}.
 Definition l_init (p : list eop) (ff : bool) : elst := {| prog := p; at_pc := PIdle; ffull := ff; my_idx := 0 |}.
 (* thread 0 = listener with the waits lp; thread t+1 = notifier with the ids (np t) *)
-Definition init (k : ekind) (c : N) (tc : option N) (po : tpolicy) (lp : list wmode) (np : nat -> list N) (ff : nat -> bool) : cfg egst elst :=
-  (g_init k c tc po, fun t => match t with O => l_init (map OWait lp) false | S u => l_init (map ONotify (np u)) (ff u) end).
+Definition init (k : ekind) (c : N) (tc : option N) (po : tpolicy) (pd : N) (lp : list wmode) (np : nat -> list N) (ff : nat -> bool) : cfg egst elst :=
+  (g_init k c tc po pd, fun t => match t with O => l_init (map OWait lp) false | S u => l_init (map ONotify (np u)) (ff u) end).
 
 (* ---- the statements the property talks about, as predicates on configurations ---- *)
 Definition listener_pc (c : cfg egst elst) : epc := at_pc (snd c O).
